@@ -123,7 +123,14 @@ def run(ctx):
                     kinds = set(mm.group(1).split('|'))
             if 'apply_connection_closed_to_current_operation' in mu.view.path:
                 callers = F.callers().get(mu.view.key, [])
-                ctx.ob(all(cv.key == closed.key for cv, _ in callers), 'assert(%s empty): close-time push happens before the closed handler drains the queue' % fld, 'connack-assert|%s|closed-current' % fld, loc=mu.loc())
+                ctx.ob(all(cv.key == closed.key for cv, _ in callers), 'assert(%s empty): the close-time push is only reachable from the closed handler' % fld, 'connack-assert|%s|closed-current' % fld, loc=mu.loc())
+                # ... and there the push precedes the drain: the call dominates an emptying site and cannot run after it
+                ccs = closed.calls(short(mu.view.path, 2))
+                succ_c, _, _ = closed.graph()
+                okord = bool(ccs) and bool(emptied) and all(
+                    any(closed.dominates(c.bb, x.bb) and c.bb != x.bb and c.bb not in closed.reach(list(succ_c[x.bb])) for x in emptied) for c in ccs)
+                ctx.ob(okord, 'assert(%s empty): the closed handler re-queues the interrupted current operation before it drains %s (a later push would survive into the next connection)' % (fld, fld),
+                       'connack-assert|%s|closed-current-order' % fld, loc=closed.loc())
                 continue
             ok = bool(kinds) and 'Connect' not in kinds
             if not ok and mu.view.path.endswith('start_operation_ack_timeout'):
